@@ -51,6 +51,8 @@ type finding struct {
 	property   string
 	obligation string // stem (or prefix ending in *)
 	what       string
+	bounded    string // bounded stand-in the finding belongs to
+	bkind      string // failure kind reported by that stand-in
 }
 
 func loadFindings(path string) []finding {
@@ -80,6 +82,12 @@ func loadFindings(path string) []finding {
 		}
 		if m := regexp.MustCompile(`obligation=(\S+)`).FindStringSubmatch(ln); m != nil {
 			f.obligation = m[1]
+		}
+		if m := regexp.MustCompile(`bounded=(\S+)`).FindStringSubmatch(ln); m != nil {
+			f.bounded = m[1]
+		}
+		if m := regexp.MustCompile(`kind=(\S+)`).FindStringSubmatch(ln); m != nil {
+			f.bkind = m[1]
 		}
 		if i := strings.Index(ln, "what="); i >= 0 {
 			f.what = ln[i+5:]
@@ -386,7 +394,21 @@ func cmdCheck(args []string) {
 	// bounded stand-ins
 	var boundedEv []map[string]any
 	for _, bs := range cfg.Bounded {
-		ev, viol := runBounded(*repo, *verif, *prop, bs, *tier, seed, *sub)
+		var knownKinds []string
+		for _, f := range findings {
+			if f.kind == "finding" && f.property == *prop && f.bounded == bs.Name && f.bkind != "" {
+				knownKinds = append(knownKinds, f.bkind)
+			}
+		}
+		ev, viol := runBounded(*repo, *verif, *prop, bs, *tier, seed, *sub, knownKinds)
+		for _, f := range findings {
+			if f.kind == "finding" && f.property == *prop && f.bounded == bs.Name {
+				if seen, _ := ev["known_kinds_seen"].([]string); containsStr(seen, f.bkind) {
+					fmt.Printf("KNOWN-FINDING: property=%s %s (bounded %s kind %s)\n", *prop, f.what, bs.Name, f.bkind)
+					knownList = append(knownList, "bounded "+bs.Name+" kind "+f.bkind+": "+f.what)
+				}
+			}
+		}
 		boundedEv = append(boundedEv, ev)
 		if viol != "" {
 			fmt.Printf("VIOLATION property=%s replay=%s bounded=%s\n", *prop, viol, bs.Name)
@@ -627,7 +649,16 @@ func tryReplay(repo, verif string, o *Obligation, inputs string) (string, bool) 
 }
 
 // runBounded executes a bounded stand-in: an in-package Go test injected through -overlay.
-func runBounded(repo, verif, prop string, bs BoundedSpec, tier string, seed int, sub string) (map[string]any, string) {
+func containsStr(xs []string, x string) bool {
+	for _, y := range xs {
+		if y == x {
+			return true
+		}
+	}
+	return false
+}
+
+func runBounded(repo, verif, prop string, bs BoundedSpec, tier string, seed int, sub string, knownKinds []string) (map[string]any, string) {
 	start := time.Now()
 	ev := map[string]any{"name": bs.Name, "contract_checked": bs.What, "bound": bs.Bound, "label": "bounded (not counted as proved)"}
 	src := filepath.Join(verif, "bounded", bs.Test)
@@ -662,7 +693,7 @@ func runBounded(repo, verif, prop string, bs BoundedSpec, tier string, seed int,
 	args = append(args, "-v", ".")
 	cmd := exec.Command("go", args...)
 	cmd.Dir = pkgDir
-	cmd.Env = append(os.Environ(), "GOFLAGS=-mod=mod", "GOPROXY=off", "GOSUMDB=off", "GOTOOLCHAIN=local", "VERIF_TIER="+tier, "VERIF_SEED="+strconv.Itoa(seed), "VERIF_OUT="+filepath.Join(verif, "out"))
+	cmd.Env = append(os.Environ(), "GOFLAGS=-mod=mod", "GOPROXY=off", "GOSUMDB=off", "GOTOOLCHAIN=local", "VERIF_TIER="+tier, "VERIF_SEED="+strconv.Itoa(seed), "VERIF_OUT="+filepath.Join(verif, "out"), "VERIF_KNOWN="+strings.Join(knownKinds, " "))
 	out, err := cmd.CombinedOutput()
 	text := string(out)
 	ev["wall_s"] = time.Since(start).Seconds()
@@ -673,6 +704,15 @@ func runBounded(repo, verif, prop string, bs BoundedSpec, tier string, seed int,
 			total += n
 		}
 		ev["cases"] = total
+	}
+	if m := regexp.MustCompile(`BOUNDED-KNOWN (\S+)`).FindAllStringSubmatch(text, -1); m != nil {
+		var ks []string
+		for _, x := range m {
+			if !containsStr(ks, x[1]) {
+				ks = append(ks, x[1])
+			}
+		}
+		ev["known_kinds_seen"] = ks
 	}
 	if m := regexp.MustCompile(`BOUNDED-SAMPLE (.*)`).FindAllStringSubmatch(text, 5); m != nil {
 		var ss []string
